@@ -12,7 +12,7 @@ from petl.compat import pickle, next, text_type
 
 
 import petl.config as config
-from petl.comparison import comparable_itemgetter
+from petl.comparison import comparable_itemgetter, Comparable
 from petl.util.base import Table, asindices
 
 
@@ -585,7 +585,9 @@ def issorted(table, key=None, reverse=False, strict=False):
             prev = next(it)
         except StopIteration:
             return True  # no data rows
+        prev = Comparable(prev)
         for curr in it:
+            curr = Comparable(curr)
             if not op(curr, prev):
                 return False
             prev = curr
